@@ -159,7 +159,7 @@ def ControlData.WF (c : ControlData) : Prop :=
   c.indexMaxKeys < 2 ^ 32 ∧ c.toastMaxChunkSize < 2 ^ 32 ∧ c.loblksize < 2 ^ 32 ∧
   c.dataChecksumVersion < 2 ^ 32 ∧ c.nonce < 256 ^ 32
 
-instance (c : ControlData) : Decidable c.WF := by unfold ControlData.WF; infer_instance
+instance ControlData.decWF (c : ControlData) : Decidable c.WF := by unfold ControlData.WF; infer_instance
 
 /-- what a reader of pg_control must report (the fields the property names) -/
 structure ControlView where
